@@ -10,6 +10,9 @@
 //              map-iteration order of calculateChanges/getCurrent as an explorer choice
 //   kube       zrpc/resolver/internal/kube EventHandler for one Endpoints object
 //   glue       discovBuilder.Build -> Subscriber -> cc.UpdateState over a seeded registry; subset()
+//   e2e        (part_e2e.go) the same chain end to end as controlled threads under vsched: real
+//              NewSubscriber/Monitor/load/watch goroutine/reload and real Build over a simulated etcd
+//              behind the EtcdClient seam; every interleaving up to a preemption bound; worker processes
 //
 // State key = white-box dump of every implementation object (container values/mapping/dirty/
 // snapshot, watchValue.values, handler set, last published list) ⊕ the reference state (etcd map,
@@ -43,6 +46,9 @@ func describe(c Case, msg string) string {
 	name := c.Part
 	if c.Part == "container" && !c.Observe {
 		name += "(unobserved)"
+	}
+	if c.Part == "e2e" {
+		return fmt.Sprintf("e2e scenario [%s] choices=%v: %s", c.Scenario, c.Choices, msg)
 	}
 	if c.Part == "subset" || c.Part == "build" {
 		return fmt.Sprintf("%s n=%d: %s", name, c.N, msg)
@@ -152,6 +158,18 @@ func main() {
 		d, dg, bd = 8, 6, 3
 		box = 17 * time.Minute
 	}
+	// worker mode: one e2e scenario per process (the registry under test is process-global)
+	e2e := e2eScenarios(cfg.Thorough())
+	e2eByShard := map[string]e2eScenario{}
+	var e2eShards []string
+	for i, sc := range e2e {
+		n := fmt.Sprintf("e2e%03d", i)
+		e2eShards = append(e2eShards, n)
+		e2eByShard[n] = sc
+	}
+	if cfg.Shard != "" {
+		vlib.RunShards(r, e2eShards, func(shard string, r *vlib.Report) { runE2EScenario(cfg, r, e2eByShard[shard]) })
+	}
 	deadline := cfg.Start.Add(box)
 	if dl := cfg.Deadline(); dl.Before(deadline) {
 		deadline = dl
@@ -185,6 +203,8 @@ func main() {
 			f = runSubset(c.N)
 		case "build":
 			f = runBuild(c.N, os.Stdout)
+		case "e2e":
+			f = replayE2E(c, cfg.Thorough())
 		default:
 			vlib.Fatal("replay names unknown part %q", c.Part)
 		}
@@ -244,7 +264,15 @@ func main() {
 		r.Scenario("build", map[string]any{"seeded_values": []int{0, 1, 2, 3, 29, 30, 31, 32, 33, 34, 40, 64}, "steps_each": 5})
 		searchPart(r, parts["glue"], deadline, lists["glue"])
 	}()
+	// part 5 (end to end under the controlled scheduler): worker processes, merged in shard order
+	re2e := vlib.NewReport(cfg)
+	wg.Add(1)
+	go func() {
+		defer wg.Done()
+		vlib.RunShards(re2e, e2eShards, func(string, *vlib.Report) {})
+	}()
 	wg.Wait()
+	r.Merge(re2e)
 	for _, n := range order {
 		for _, f := range lists[n].l {
 			r.Violation(f.class, f.desc, f.c)
@@ -254,10 +282,14 @@ func main() {
 	r.Assume("etcd delivers every change of a key as one event (PUT for create/update, DELETE without value); a DELETE only for an existing key")
 	r.Assume("a reload snapshot is the whole prefix in key order; the order in which handleChanges/Monitor deliver the members of one add-run/remove-run is arbitrary (map iteration) and enumerated")
 	r.Assume("exclusive subscriber reference: a value is shown iff the key that registered it most recently (by etcd history) is still registered with it")
+	r.Assume("e2e: etcd delivers the events of a watch in revision order without gaps or duplicates from the requested start revision; a watch that lags catches up in one response or, if its next revision was compacted, is cancelled with the compact revision; Get never fails; plain (non-exclusive) subscribers; at most 3 keys, below the 32-address subset")
+	r.Assume("e2e: cc.UpdateState takes effect at some point after it is called (a scheduling point inside the fake ClientConn); cluster.reload is started by the harness the way the connectivity watcher starts it (go c.reload(cli)); the etcd client is injected through the connection manager, so cluster.newClient/watchConnState do not run")
 	r.Assume("kube: one Endpoints object; informer contract (add only if unknown, update old->new, delete with last known object); the object is not deleted between kubeBuilder's Get and the informer's initial list")
 	r.SetRule("case = shortest operation history reaching a distinct state key (implementation dump ⊕ reference); BFS expands every enabled operation of every state up to the depth bound; " +
 		"distinct_nontrivial counts states whose last operation made the real code handle an event (put-new/put-same/put-changed/delete/batch, reload with a non-empty diff, late Monitor, kube callback), " +
-		"plus one per subset size and per seeded Build size; operations applied to the reference only (while disconnected / before the informer starts) are not counted")
+		"plus one per subset size and per seeded Build size; operations applied to the reference only (while disconnected / before the informer starts) are not counted; " +
+		"e2e part: case = one complete interleaving (choice sequence of the controlled scheduler) of a scenario (client action x etcd script x what was established before), every interleaving up to the preemption bound is executed on the real code; " +
+		"distinct_nontrivial counts, per scenario, the distinct sequences of observations (states given to cc.UpdateState / sets read by listeners) the interleavings produced")
 	pprof.StopCPUProfile()
 	r.Finish()
 }
